@@ -1,6 +1,7 @@
 """C18 -- the tool connects to, and reports on, exactly the target that was named."""
+import os
 import sys
-from pyvc.driver import main, native_bounded
+from pyvc.driver import main, native_bounded, VERIF
 from contracts import c18_target
 
 
@@ -12,8 +13,15 @@ def custom_native(ip, runner):
 
 def custom_resolve(ip, runner):
     return [native_bounded(runner, 'SSH_Socket._resolve', 'only addresses of the requested families are yielded, in the requested family order (stable within a family), stream sockets only',
-                           c18_target.NATIVE_RESOLVE, '5 family preferences x 7 synthetic resolver answers (v4-first, v6-first, interleaved, with a datagram entry, single family, empty)',
+                           c18_target.NATIVE_RESOLVE, '5 family preferences x 7 synthetic resolver answers (v4-first, v6-first, interleaved, with a datagram entry, single family, empty); IPv4 and IPv6 literals x 5 preferences against a resolver that rejects a literal of the other family',
                            'SSH_Socket._resolve')]
+
+
+def custom_main(ip, runner):
+    code = c18_target.NATIVE_MAIN % {'native': os.path.join(VERIF, 'native')}
+    return [native_bounded(runner, 'targets-file-ports', 'every line of a targets file is contacted on its own port or else the -p default (22 without -p), and its report is labelled host, host:port or [v6]:port accordingly',
+                           code, '6 lines (hostname, host:port, IPv4, bare IPv6, [v6]:port) x {no -p, -p 2222} x {1, 3} threads through the real main() over the fake network (connect events and target labels)',
+                           'ssh_audit:main (targets file, fake network)')]
 
 
 def custom_crosscheck(ip, runner):
@@ -27,7 +35,7 @@ def build(chk, ip, runner):
     chk.design_ref = 'DESIGN.md section 5 C18'
     ip.models['object.__setattr__'] = c18_target.m_object_setattr
     chk.units = c18_target.units()
-    chk.customs = [custom_native, custom_crosscheck, custom_resolve]
+    chk.customs = [custom_native, custom_crosscheck, custom_resolve, custom_main]
     chk.level = 'other'
     chk.explanation = ('parse_host_and_port proved against the documented reading of each spelling (six structured input shapes, '
                        'unbounded host and port strings); port validation proved; argparse-driven command-line and targets-file '
